@@ -34,6 +34,11 @@ WITNESS = {
   'checkgates': ('samlang-compiler', 'crates/samlang-compiler/src/lib.rs', 'wx/witness/samlang_compiler_lib.rs', 'verif_witness_search_errors'),
   'visgate': ('samlang-compiler', 'crates/samlang-compiler/src/lib.rs', 'wx/witness/samlang_compiler_lib.rs', 'verif_witness_search_errors'),
   'ssascope': ('samlang-compiler', 'crates/samlang-compiler/src/lib.rs', 'wx/witness/samlang_compiler_lib.rs', 'verif_witness_search_errors'),
+  'srvstate': ('samlang-services', 'crates/samlang-services/src/server_state.rs', 'wx/witness/samlang_services_server_state.rs', 'verif_witness_search'),
+  'enumlayout': ('samlang-compiler', 'crates/samlang-compiler/src/lib.rs', 'wx/witness/samlang_compiler_lib.rs', 'verif_witness_search_enum_layout'),
+  'tripcount': ('samlang-optimization', 'crates/samlang-optimization/src/loop_algebraic_optimization.rs', 'wx/witness/samlang_optimization_tripcount.rs', 'verif_witness_search'),
+  # thorough-tier exploration without a unit of its own (registry: 'thorough_witness')
+  'parser_terminates': ('samlang-parser', 'crates/samlang-parser/src/lib.rs', 'wx/witness/samlang_parser_lib.rs', 'verif_witness_search_parser_terminates'),
   'depgraph': ('samlang-services', 'crates/samlang-services/src/dep_graph.rs', 'wx/witness/samlang_services_dep_graph.rs', 'verif_witness_search'),
 }
 
